@@ -308,6 +308,7 @@ func cmdRun(args []string) int {
 		fmt.Fprintln(os.Stderr, "cannot load program after dropping harness files")
 		return 2
 	}
+	registerHooks(pg)
 	tLoad := time.Since(t0)
 
 	var results []*harnessResult
